@@ -94,7 +94,7 @@ def run_pair(case):
                         choices.append(["swapmsg", ci, rng.randrange(5), rng.randrange(5)])
                     if not fifo and W.msg_frames(ci) and rng.random() < 0.2:
                         choices.append(["dupmsg", ci, rng.randrange(5)])
-                if c.eq._calls:
+                if W.pending_turn(ci):
                     choices += [["turn", ci]] * 2
                 if c.svc.stopping is not None and not c.svc.stopping.called:
                     choices.append(["svc_stopped", ci])
